@@ -114,7 +114,20 @@ impl Generator {
         match self.profile.as_str() {
             "boundary" => self.rng.pick(&[0u128, 1, sec, u64::MAX as u128, (i64::MAX as u128) * sec, (u64::MAX as u128) * sec + 999_999_999, ((i64::MAX as u128) - 2_000_000_000) * sec,
                 ((i64::MAX as u128) - 1_000) * sec, ((i64::MAX as u128) - 1_000) * sec + 999_999_999, ((i64::MAX as u128) - 999) * sec, ((i64::MAX as u128) - 1_001) * sec]),
-            _ => self.rng.pick(&[1u128, 999_999_999, sec, sec + 1, 2 * sec, 3 * sec, 5 * sec, shards * sec, 1000 * sec, 0]),
+            _ => {
+                // every magnitude between a millisecond and centuries, and the edges of the narrower integer types a duration
+                // might be squeezed through (seeded C09j: a cap of u32::MAX MILLISECONDS, 49.7 days, sat in a gap of this list)
+                if self.rng.chance(14) {
+                    if self.rng.chance(50) {
+                        let exponent = 6 + self.rng.below(13) as u32;                       // 10^6 .. 10^18 ns
+                        return (1 + self.rng.below(9)) as u128 * 10u128.pow(exponent) + self.rng.below(1000) as u128;
+                    }
+                    let edge = self.rng.pick(&[u32::MAX as u128, i32::MAX as u128, u16::MAX as u128, 1u128 << 32, 1u128 << 31]);
+                    let unit = self.rng.pick(&[1u128, 1_000, 1_000_000, sec, 60 * sec]);
+                    return (edge * unit + self.rng.pick(&[0u128, 1, sec])).min(((i64::MAX as u128) / 4) * 1); 
+                }
+                self.rng.pick(&[1u128, 999_999_999, sec, sec + 1, 2 * sec, 3 * sec, 5 * sec, shards * sec, 1000 * sec, 0])
+            }
         }
     }
 
